@@ -16,7 +16,7 @@
 (*      Clause(): a value of a documented signature or a werkzeug HTTP exception with a 4xx  *)
 (*      code; anything else is named NoUnrelatedException / DocumentedType / Terminates.     *)
 (* Text is a sequence of code points.  Nothing here is transcribed from the implementation.  *)
-EXTENDS Naturals, Sequences, FiniteSets, TLC, Bytes, HostileBody, HostileExt
+EXTENDS Naturals, Sequences, FiniteSets, TLC, Bytes, HostileBody, HostileExt, HostileNum
 
 (* ---- (a) domain ------------------------------------------------------------------------- *)
 DomainChars == (32..126) \cup (128..255)
@@ -388,6 +388,19 @@ Ctxs(fam) == CASE fam = "options" -> Ctx_options [] fam = "ctype" -> Ctx_ctype [
                [] fam = "range" -> Ctx_range [] fam = "date" -> Ctx_date [] fam = "body" -> Ctx_body
                [] fam = "accept" -> Ctx_accept [] fam = "ext" -> Ctx_ext
 
+\* Slots that parse what a sweep context surrounds: the sweep texts of context k always go to CtxTargets(fam)[k]
+\* (in the quick tier the other slots of the family get a seeded sample only).  <<>> = no particular slot.
+CtxTargets(fam) ==
+  CASE fam = "url"   -> << <<>>, <<"HOST">>, <<"HOST">>, <<"QUERY_STRING">>, <<"QUERY_STRING", "PATH_INFO">>, <<"HOST">>, <<"HOST">> >>
+    [] fam = "cond"  -> << <<>>, <<"IF_MATCH", "IF_NONE_MATCH", "IF_RANGE">>, <<"IF_NONE_MATCH">>, <<"RANGE">>, <<>>,
+                           <<"IF_MODIFIED_SINCE", "IF_UNMODIFIED_SINCE", "IF_RANGE", "DATE">>, <<"CONTENT_LENGTH", "MAX_FORWARDS">> >>
+    [] fam = "range" -> << <<>>, <<"RANGE">>, <<"RANGE">>, <<"RANGE">>, <<>>, <<>>, <<"RANGE">> >>
+    [] fam = "date"  -> << <<>>, <<"IF_MODIFIED_SINCE", "DATE">>, <<"IF_UNMODIFIED_SINCE", "IF_RANGE">>, <<"IF_MODIFIED_SINCE">>, <<"DATE">>, <<"IF_RANGE">> >>
+    [] fam = "ctype" -> << <<>>, <<"CONTENT_TYPE_MP">>, <<"CONTENT_TYPE_URL">>, <<"CONTENT_TYPE_JSON">> >>
+    [] fam = "auth"  -> [k \in 1..Len(Ctxs(fam)) |-> <<"AUTHORIZATION">>]
+    [] fam = "cookie" -> [k \in 1..Len(Ctxs(fam)) |-> <<"COOKIE">>]
+    [] OTHER -> [k \in 1..Len(Ctxs(fam)) |-> <<>>]
+
 \* text of a sequence of token indices
 RECURSIVE TextOf(_, _)
 TextOf(fam, seq) == IF seq = <<>> THEN <<>> ELSE Toks(fam)[Head(seq)] \o TextOf(fam, Tail(seq))
@@ -473,7 +486,7 @@ FamFns(fam) ==
                             "parse_date", "parse_age", "unquote_etag">>
     [] fam = "auth"    -> <<"Authorization.from_header", "WWWAuthenticate.from_header", "parse_dict_header">>
     [] fam = "cookie"  -> <<"parse_cookie", "parse_cookie[environ]">>
-    [] fam = "url"     -> <<"parse_list_header">>
+    [] fam = "url"     -> <<"parse_list_header", "wsgi.get_host", "wsgi.get_current_url">>
     [] fam = "range"   -> <<"parse_range_header", "parse_content_range_header", "parse_if_range_header", "parse_age">>
     [] fam = "date"    -> <<"parse_date", "parse_if_range_header">>
     [] fam = "body"    -> <<"parse_options_header">>
@@ -669,6 +682,8 @@ Table ==
         V("to_header", FALSE, {"str"}), V("str", FALSE, {"str"}) >> @@
   "unquote_etag" :> << V("call", TRUE, {"tuple[str,bool]", "tuple[NoneType,NoneType]"}) >> @@
   "unquote_header_value" :> << V("call", TRUE, {"str"}) >> @@
+  "wsgi.get_host" :> << V("call", TRUE, {"str"}) >> @@             \* environ with HTTP_HOST = text
+  "wsgi.get_current_url" :> << V("call", TRUE, {"str"}) >> @@
   "Request" :> RequestPositions @@
   "RequestBody" :> RequestBodyPositions @@
   "RequestPart" :> RequestPartPositions
@@ -687,6 +702,10 @@ Clause(fn, w, kd, ty, kd1, ty1) ==
   ELSE "OnlyClientErrorResponses"
 
 TableWellFormed ==
+  /\ \A p \in TargetPairs : p[1] \in (Fns \ {"Request", "RequestBody", "RequestPart"}) \cup Slots
+  /\ \A i \in 1..Len(Families) : /\ Len(CtxTargets(Families[i])) = Len(Ctxs(Families[i]))
+                                 /\ \A k \in 1..Len(Ctxs(Families[i])) : \A j \in 1..Len(CtxTargets(Families[i])[k]) :
+                                        \E m \in 1..Len(FamSlots(Families[i])) : FamSlots(Families[i])[m] = CtxTargets(Families[i])[k][j]
   /\ \A fn \in Fns : Len(Table[fn]) >= 1 /\ Table[fn][1].n = "call" /\ Table[fn][1].core
   /\ \A i \in 1..Len(Families) : /\ \A k \in 1..Len(FamFns(Families[i])) : FamFns(Families[i])[k] \in Fns \ {"Request", "RequestBody", "RequestPart"}
                                  /\ \A k \in 1..Len(FamSlots(Families[i])) : FamSlots(Families[i])[k] \in Slots
